@@ -236,6 +236,12 @@ C16 = [
     ('annotation-lock-not-taken', CTX,
      "        path = self._annotations_path\n        with self._write_lock(path):\n            with open(path, 'r') as fh:\n                lines = []",
      "        path = self._annotations_path\n        if True:\n            with open(path, 'r') as fh:\n                lines = []", None),
+    ('database-touches-lock-file-again (original defect F10)', [
+        (DB, "        path = self.path / FILE_LOCK\n        return path_lock(str(path), shared=True)",
+         "        path = self.path / FILE_LOCK\n        path.touch(exist_ok=True)\n        return path_lock(str(path), shared=True)"),
+        (DB, "        path = self.path / FILE_LOCK\n        return path_lock(str(path), shared=False)",
+         "        path = self.path / FILE_LOCK\n        path.touch(exist_ok=True)\n        return path_lock(str(path), shared=False)"),
+    ], 'C16/lock-exclusion'),
     ('log-written-without-lock', CTX,
      "        with self._write_lock(log_path):\n            with open(log_path, 'a') as fh:",
      "        if True:\n            with open(log_path, 'a') as fh:", None),
